@@ -743,7 +743,93 @@ def cat_case(ctx, spec, idx):
 
 
 # ------------------------------------------------------------------ driver
+PD_HEADER = "From Verif Require Import PatchData.\nFrom Coq Require Import List NArith.\nImport ListNotations.\nOpen Scope N_scope.\n"
+PD_SPECIAL = [0x0000000000000000, 0x8000000000000000, 0x7FF0000000000000, 0xFFF0000000000000, 0x7FF8000000000000, 0x7FF8000000000001,
+              0xFFF8DEADBEEF0001, 0x0000000000000001, 0x000FFFFFFFFFFFFF, 0x3FF0000000000000, 0x7FEFFFFFFFFFFFFF, 0xFFFFFFFFFFFFFFFF]
+
+
+def pd_nl(xs):
+    return "[" + "; ".join(str(int(x)) for x in xs) + "]"
+
+
+def pd_info(w, z):
+    return "{| has_w := %s; has_z := %s; has_pid := false |}" % ("true" if w else "false", "true" if z else "false")
+
+
+def patchdata_cases(ctx):
+    """patch_N/data.bin byte for byte (Model/PatchData.v): records of arbitrary 64-bit patterns handed to the real PatchWriter in
+    chunks with a small buffer, the file's bytes against the model's, and read_patch_data on the file and on cuts of it
+    (record boundaries and inside a record) against the model's reader."""
+    from yaw.catalog.patch import PatchWriter, read_patch_data
+    from yaw.datachunk import DataChunkInfo
+    rng = ctx.rng
+    terms, metas = [], []
+    for k in range(ctx.n(40, 400)):
+        w, z = rng.random() < 0.5, rng.random() < 0.5
+        names = ["ra", "dec"] + (["weights"] if w else []) + (["redshifts"] if z else [])
+        dtype = np.dtype([(a, "f8") for a in names])
+        nrec = rng.choice([0, 1, 2, 3, 7, 16, 33])
+        pats = [[rng.choice(PD_SPECIAL) if rng.random() < 0.3 else rng.getrandbits(64) for _ in names] for _ in range(nrec)]
+        arr = np.zeros(nrec, dtype=dtype)
+        raw = arr.view("u8").reshape(nrec, len(names)) if nrec else None
+        for r, rec in enumerate(pats):
+            for c, v in enumerate(rec):
+                raw[r, c] = v
+        cache = impl.fresh_dir(ctx, "pd_%d" % k)
+        buf = rng.choice([1, 2, 5, 65536])
+        with PatchWriter(cache, chunk_info=DataChunkInfo(has_weights=w, has_redshifts=z), buffersize=buf) as wr:
+            pos = 0
+            while pos < nrec:
+                step = rng.choice([1, 2, 3, 8])
+                wr.process_chunk(arr[pos:pos + step])
+                pos += step
+        path = os.path.join(cache, "data.bin")
+        data = open(path, "rb").read()
+        rsz = 8 * len(names)
+        cuts = [len(data)]
+        if nrec:
+            cuts += [1 + rsz * rng.randrange(0, nrec + 1), rng.randrange(0, len(data) + 1), 1 + rsz * rng.randrange(0, nrec) + rng.randrange(1, rsz), 0, 1]
+        # a foreign header byte: flags the writer never produces (low bits clear, high bits set) must be read by their bits 2..4 only
+        for cut in cuts:
+            probe = bytearray(data[:cut])
+            variant = "cut@%d" % cut if cut != len(data) else "whole"
+            if probe and rng.random() < 0.15:
+                probe[0] = (probe[0] & 0b00011100) | rng.choice([0, 0b11100000, 0b01000001])
+                variant += "/foreign-header"
+            ppath = os.path.join(cache, "probe.bin")
+            with open(ppath, "wb") as f:
+                f.write(bytes(probe))
+            try:
+                info, back = read_patch_data(ppath)
+            except Exception:  # noqa: BLE001
+                info = None
+            if info is None:
+                rb, kind = "None", "raises"
+            else:
+                rows = np.ascontiguousarray(back).view("u8").reshape(len(back), -1).tolist() if len(back) else []
+                rb = "(Some (%s, %s))" % (
+                    "{| has_w := %s; has_z := %s; has_pid := %s |}" % tuple("true" if x else "false" for x in (info.has_weights, info.has_redshifts, info.has_patch_ids)),
+                    "[" + "; ".join(pd_nl(row) for row in rows) + "]")
+                kind = "reads"
+            terms.append("c11_patchdata_case %s %s %s %s %s" % (pd_info(w, z), "[" + "; ".join(pd_nl(r) for r in pats) + "]",
+                                                             pd_nl(data), pd_nl(probe), rb))
+            metas.append(dict(flags=(w, z), nrec=nrec, buffersize=buf, variant=variant, cut=cut, file_bytes=len(data)))
+            ctx.count(key=("pd", k, variant), nontrivial=nrec > 0, kind="patchdata/%s/%s" % (variant.split("@")[0], kind))
+        shutil.rmtree(cache, ignore_errors=True)
+    codes = ctx.shards("Cases_C11_patchdata", PD_HEADER, terms, shard=60)
+    for m, c in zip(metas, codes):
+        if not c:
+            continue
+        if c & 1:
+            ctx.fail("c11-patchdata-bytes", "data.bin is not the header byte of the flags followed by the packed little-endian records handed "
+                     "to the writer", m, case=("pd", m["variant"], m["nrec"]))
+        if c & 2:
+            ctx.fail("c11-patchdata-readback:%s" % m["variant"].split("@")[0], "read_patch_data on %s differs from the records written (or raises / "
+                     "does not raise where the byte count says it should)" % m["variant"], m, case=("pd-read", m["variant"], m["nrec"]))
+
+
 def run(ctx):
+    patchdata_cases(ctx)
     impl.set_threads(1)
     out = dict(sparse=[], members=[], txt=[], cfg=[], meta=[])
     n_hdf, n_txt, n_cfg, n_meta, n_cat = ctx.n(56, 1150), ctx.n(48, 1000), ctx.n(32, 640), ctx.n(10, 200), ctx.n(3, 24)
